@@ -100,7 +100,7 @@ def _loops(text, body_open):
     return out
 
 
-def desugar_for(text, body_open, n, itname, hits):
+def desugar_for(text, body_open, n, itname, hits, plain=False):
     """R11: rewrite the n-th loop, which must be `for PAT in EXPR {`, into the loop Rust (and Verus' own
     `for` support) desugars it to, so that invariant_except_break / ensures can be stated:
         let mut IT = VerusForLoopWrapper::new(IntoIterator::into_iter(EXPR)); let ghost IT__snap0 = IT.snapshot@;
@@ -136,6 +136,14 @@ def desugar_for(text, body_open, n, itname, hits):
     pat = head[:pos].strip()
     expr = head[pos + 4:].strip()
     nl = head.count('\n')
+    if plain:
+        # Rust's own desugaring, for an iterator that the prelude models itself (no vstd iterator wrapper)
+        new_head = ('let mut %s = core::iter::IntoIterator::into_iter(%s); loop ' % (itname, ' '.join(expr.split()))) + '\n' * nl
+        new_body_start = ('{ let ghost %s__old = %s; let %s = match %s.next() { Some(v__) => v__, None => { break; } }; '
+                          % (itname, itname, ' '.join(pat.split()), itname))
+        text = text[:kw.start()] + new_head + new_body_start + text[ob + 1:]
+        hits['R11.for_desugared'] = hits.get('R11.for_desugared', 0) + 1
+        return text
     new_head = ('let mut %s = vstd::std_specs::iter::VerusForLoopWrapper::new(core::iter::IntoIterator::into_iter(%s)); '
                 'let ghost %s__snap0 = %s.snapshot@; loop ' % (itname, ' '.join(expr.split()), itname, itname)) + '\n' * nl
     new_body_start = ('{ let ghost %s__old = %s; let %s = match %s.next() { Some(v__) => v__, None => { break; } }; '
@@ -502,7 +510,7 @@ def _finish_cut(asm, c, text, hits, kv, secs, kind):
             text = extract.r12_unsafe_blocks(text, hits)
     for tk, lines_, no in secs:
         if tk[0] == 'desugar_for':
-            text = desugar_for(text, 0, int(tk[1]), tk[2] if len(tk) > 2 else 'it', hits)
+            text = desugar_for(text, 0, int(tk[1]), tk[2] if len(tk) > 2 else 'it', hits, plain=(len(tk) > 3 and tk[3] == 'plain'))
     m = mask(text)
     if kind == 'fn':
         fnkw = re.search(r'\bfn\s+' + re.escape(kv['name']) + r'\b', text)
